@@ -204,10 +204,18 @@ def numba_newton_raphson(
         else:
             bounds_to_check = (root_bounds[0], root_bounds[1])
 
-        if next_iterate < bounds_to_check[0]:
+        if root_bounded and (
+            next_iterate < bounds_to_check[0] or next_iterate > bounds_to_check[1]
+        ):
+            # The step wants to escape the interval that brackets the root: take a
+            # bisection step instead. (Halving the distance to the violated bound
+            # does not move when the iterate itself is that bound.)
+            next_iterate = 0.5 * (root_bounds[0] + root_bounds[1])
+
+        elif next_iterate < bounds_to_check[0]:
             next_iterate = (bounds_to_check[0] - iterates[2]) * 0.5 + iterates[2]
 
-        if next_iterate > bounds_to_check[1]:
+        elif next_iterate > bounds_to_check[1]:
             next_iterate = (bounds_to_check[1] - iterates[2]) * 0.5 + iterates[2]
 
         # Roll the iterates, make the last entry the latest estimate
